@@ -384,6 +384,8 @@ bool SessionManager::send(const PeerId& peer_id, std::span<const std::uint8_t> p
 
     std::copy(ciphertext.begin(), ciphertext.end(), buffer.begin() + kNonceSize + kLengthFieldSize);
 
+    // One frame at a time per session: send_all may need several ::send calls.
+    std::lock_guard<std::mutex> send_lock(session->send_mutex);
     return send_all(session->socket, buffer.data(), buffer.size());
 }
 
